@@ -761,6 +761,12 @@ def evaluate(ctx, cases, first_use_cases, coq_sample=24, do_minimise=True, state
     return failures, st
 
 
+def split_families(cases):
+    """(ordinary rounds, state rounds, churn rounds) of a list of rounds (the corpus has all three)."""
+    return ([c for c in cases if c.get("kind") != "churn" and c.get("family") != "state"],
+            [c for c in cases if c.get("family") == "state"], [c for c in cases if c.get("kind") == "churn"])
+
+
 def make_extra(ctx, nstate, nchurn, churn_iters, churn_ms, max_threads):
     rng = ctx.rng
     state = [gen_state_round(rng, "s%d" % i, min(max_threads, rng.choice([2, 4, 4, 8, 8, 8, 12])), rng.randint(8, 14)) for i in range(nstate)]
@@ -788,6 +794,8 @@ def make_cases(ctx, nrounds, nfirst, max_threads, nops):
 def correspond(ctx):
     cases, first, corpus_ids = make_cases(ctx, ctx.n(160, 3000), ctx.n(16, 320), ctx.n(8, 16), ctx.n(8, 16))
     state, churn = make_extra(ctx, ctx.n(24, 400), ctx.n(12, 80), ctx.n(150000, 600000), ctx.n(8000, 30000), ctx.n(12, 16))
+    cases, state0, churn0 = split_families(cases)
+    state, churn = state0 + state, churn0 + churn
     ctx.log("generated %d rounds + %d first-use rounds (fresh process each) + %d per-thread-state rounds + %d churn rounds"
             % (len(cases), len(first), len(state), len(churn)))
     failures, st = evaluate(ctx, cases, first, coq_sample=ctx.n(6, 96), state_cases=state, churn_cases=churn)
@@ -853,6 +861,8 @@ def search(ctx, broken):
     try:
         cases, first, _ = make_cases(ctx, 600, 64, 16, 14)
         state, churn = make_extra(ctx, 120, 40, 400000, 20000, 16)
+        cases, state0, churn0 = split_families(cases)
+        state, churn = state0 + state, churn0 + churn
     finally:
         ctx.tier = old
     failures, st = evaluate(ctx, cases, first, coq_sample=8, state_cases=state, churn_cases=churn)
